@@ -72,6 +72,12 @@ class Opaque:
     def __repr__(self):
         return "<opaque %s>" % self.text
 
+    def __eq__(self, o):
+        return isinstance(o, Opaque) and o.text == self.text
+
+    def __hash__(self):
+        return hash(("Opaque", self.text))
+
 
 class ClassRef:
     def __init__(self, ci):
@@ -497,6 +503,23 @@ class Ev:
             else:
                 args.append(self.ev(a))
         kw = {k.arg: self.ev(k.value) for k in n.keywords}
+        if fname in ("getattr", "setattr", "hasattr") and n.args and isinstance(n.args[0], ast.Name) \
+                and n.args[0].id == "self" and "self" not in self.env and len(args) >= 2 and isinstance(args[1], str) and not kw:
+            # attribute of the object under evaluation selected by a folded name
+            key = "self." + args[1]
+            node = ast.Attribute(value=ast.Name(id="self", ctx=ast.Load()), attr=args[1], ctx=ast.Load())
+            if fname == "setattr" and len(args) == 3:
+                self.env[key] = args[2]
+                return None
+            try:
+                v = self.ev(node)
+                return True if fname == "hasattr" else v
+            except Unknown:
+                if fname == "hasattr":
+                    raise
+                if len(args) == 3:
+                    raise Unknown("getattr default for an unmodelled attribute %s" % args[1])
+                raise
         if fname == "type" and len(args) == 1 and not kw:
             tn = type(args[0]).__name__
             if tn in _TYPES or tn == "NoneType":
@@ -752,12 +775,44 @@ class Ev:
             it = self.ev(st.iter)
             if isinstance(it, ClassRef) and self.is_enum(it.ci):
                 it = self.enum_members(it.ci)
+            broke = False
             for v in it:
                 self._bind(st.target, v, self.env)
                 r = self.run_block(st.body)
+                if r is _CONT:
+                    continue
+                if r is _BRK:
+                    broke = True
+                    break
                 if r is not _FALL:
                     return r
-            return self.run_block(st.orelse)
+            return _FALL if broke else self.run_block(st.orelse)
+        if isinstance(st, ast.While):
+            n_it = 0
+            broke = False
+            while self.ev(st.test):
+                n_it += 1
+                if n_it > 100000:
+                    raise Unknown("loop bound")
+                r = self.run_block(st.body)
+                if r is _CONT:
+                    continue
+                if r is _BRK:
+                    broke = True
+                    break
+                if r is not _FALL:
+                    return r
+            return _FALL if broke else self.run_block(st.orelse)
+        if isinstance(st, ast.Continue):
+            return _CONT
+        if isinstance(st, ast.Break):
+            return _BRK
+        if isinstance(st, ast.With):
+            # context managers of the toolkit are locks / files: the body runs once
+            for it_ in st.items:
+                if it_.optional_vars is not None:
+                    raise Unknown("with ... as")
+            return self.run_block(st.body)
         if isinstance(st, ast.Raise):
             cls = "Exception"
             if st.exc is not None:
@@ -811,6 +866,8 @@ class Ev:
 
 _FALL = object()
 _BUILDING = object()
+_CONT = object()
+_BRK = object()
 
 _STR_METHODS = {"strip", "lstrip", "rstrip", "split", "rsplit", "startswith", "endswith", "lower", "upper", "isdigit",
                 "partition", "rpartition", "find", "rfind", "replace", "join", "encode", "isalnum", "isalpha",
